@@ -21,7 +21,7 @@ from sim.seams import (ErrstateRaise, LineInterrupter, SimInterrupt, SolveSeam, 
 
 ID = "C14"
 PANEL_PER_MODE = 3
-PER_RUN_CAP = 300
+PER_RUN_CAP = 900
 WALL_CAP = {"quick": 240, "thorough": 3000}
 MINIMISE_S = 60.0
 MINIMISE_TOTAL_S = 240.0
@@ -452,8 +452,13 @@ def run_query(est, q, pool, n_src):
         return est.in_gamut(g("B"), relative=a.get("relative", True),
                             normalized=a.get("normalized", False))
     if name == "range_of_solutions":
+        n_spaced = a.get("n")
+        # the spaced-solution recursion is exponential in the number of surplus sources:
+        # only asked for when at most two sources are surplus
+        if n_spaced and n_src and n_src - pool["F"].shape[0] > 2:
+            n_spaced = None
         return est.range_of_solutions(g("B"), relative=a.get("relative", True), error="ignore",
-                                      n=a.get("n"))
+                                      n=n_spaced)
     if name == "sample_in_gamut":
         return est.sample_in_gamut(n=a.get("n", 6), seed=a.get("seed", 1), engine=a.get("engine"),
                                    l1=a.get("l1"), relative=a.get("relative", True))
